@@ -1,5 +1,3 @@
-//go:build !vsreal
-
 // Package c19: one-shot signals (drpcsignal.Signal, drpcsignal.Chan) under all
 // interleavings, with scheduling points before and after every atomic.
 package c19
